@@ -868,14 +868,13 @@ Section AnalyzerSpec.
   Qed.
 
   (* ---- analyze ---- *)
-  Theorem analyze_spec n l (U : mat) hin hout ps inputs expected r :
-    analyze o n l U hin hout ps inputs expected = Ok r ->
-    hd_eqb hin hout = true /\
+  Theorem analyze_body_spec n l (U : mat) hin hout ps inputs expected r :
+    analyze_body o n l U hin hout ps inputs expected = Ok r ->
     exists fins,
       an_process_inputs (n - length hin) l hin inputs = Ok fins /\
       n - length hin <> 0 /\
       ar_outputs r = map zs (filter (fun c => ps_acc ps (zs c))
-                                    (an_candidates (n - length hin) l (an_nphotons fins))) /\
+                                    (an_candidates (n - length hin) l (an_nphotons inputs))) /\
       ar_outputs r <> [] /\
       Forall2 (fun x fo => add_heralds_to_state x hout = Ok fo) (ar_outputs r) (ar_full r) /\
       Forall2 (fun fin row =>
@@ -889,10 +888,9 @@ Section AnalyzerSpec.
       | Some e => exists x, ar_err r = Some x /\ an_error_rate o (ar_probs r) inputs (ar_outputs r) e = Ok x
       end.
   Proof.
-    unfold analyze. destruct (hd_eqb hin hout) eqn:Eh; simpl; [|discriminate]. intros H.
-    split; [reflexivity|].
+    unfold analyze_body. intros H.
     destruct (an_process_inputs (n - length hin) l hin inputs) as [fins|] eqn:Ei; cbn [bind] in H; [|discriminate].
-    destruct (an_generate_outputs ps (n - length hin) l (an_nphotons fins) hout) as [outs|] eqn:Eo; cbn [bind] in H; [|discriminate].
+    destruct (an_generate_outputs ps (n - length hin) l (an_nphotons inputs) hout) as [outs|] eqn:Eo; cbn [bind] in H; [|discriminate].
     destruct (an_probs o l U fins outs) as [probs|] eqn:Ep; cbn [bind] in H; [|discriminate].
     exists fins. split; [reflexivity|].
     unfold an_generate_outputs in Eo.
@@ -926,6 +924,19 @@ Section AnalyzerSpec.
       + apply Forall2_map_lr. exact Hf2.
       + rewrite Hlen. reflexivity.
   Qed.
+
+  (* analyze = the guard on the number of heralds, then the body *)
+  Lemma analyze_ok n l (U : mat) hin hout ps inputs expected r :
+    analyze o n l U hin hout ps inputs expected = Ok r ->
+    length hout = length hin /\ analyze_body o n l U hin hout ps inputs expected = Ok r.
+  Proof.
+    unfold analyze. destruct (Nat.eqb_spec (length hin) (length hout)) as [E|]; simpl; [|discriminate].
+    intros H. split; [symmetry; exact E|exact H].
+  Qed.
+
+  Lemma analyze_guard n l (U : mat) hin hout ps inputs expected :
+    length hin <> length hout -> analyze o n l U hin hout ps inputs expected = Err OtherError.
+  Proof. unfold analyze. intros H. rewrite (proj2 (Nat.eqb_neq _ _) H). reflexivity. Qed.
 
   (* the inputs the analyzer works with: heralds inserted, vacuum on the loss modes *)
   Lemma an_process_inputs_spec m l hin inputs fins :
@@ -1153,12 +1164,12 @@ Section Consistency.
   Qed.
 
   Lemma analyzer_full_lengths n l (U : @mat C) hin hout ps inputs expected r :
-    analyze rops n l U hin hout ps inputs expected = Ok r -> (length hin <= n)%nat ->
+    analyze_body rops n l U hin hout ps inputs expected = Ok r -> (length hin <= n)%nat ->
+    length hout = length hin ->
     Forall (fun fo => length (znat fo) = n) (ar_full r).
   Proof.
-    intros H Hh. destruct (analyze_spec (o:=rops) _ _ _ _ _ _ _ _ _ H)
-      as (Heq & fins & _ & Hm & Hout & _ & Hfull & _).
-    apply hd_eqb_length in Heq.
+    intros H Hh Heq. destruct (analyze_body_spec (o:=rops) _ _ _ _ _ _ _ _ _ H)
+      as (fins & _ & Hm & Hout & _ & Hfull & _).
     eapply (Forall2_Forall_r _ (fun x => length x = (n - length hin)%nat)); [exact Hfull| |].
     - rewrite Hout. apply Forall_forall. intros x Hx. apply in_map_iff in Hx.
       destruct Hx as [c [<- Hc]]. apply filter_In in Hc. destruct Hc as [Hc _].
@@ -1168,16 +1179,16 @@ Section Consistency.
   Qed.
 
   Theorem analyzer_eq_sampler b n l (U : @mat C) hin hout ps inputs expected r :
-    (0 < n)%nat -> (length hin <= n)%nat ->
-    analyze rops n l U hin hout ps inputs expected = Ok r ->
+    (0 < n)%nat -> (length hin <= n)%nat -> length hout = length hin ->
+    analyze_body rops n l U hin hout ps inputs expected = Ok r ->
     (lunit cops (n + l) U \/ Forall (fun fo => (0 < osum (znat fo))%nat) (ar_full r)) ->
     Forall2 (fun i row => sampler_accepts b n l U hin i /\
                           row = map (fun fo => sampler_p b n l U hin i (znat fo)) (ar_full r))
             inputs (ar_probs r).
   Proof.
-    intros Hn Hh H Hg. pose proof (analyzer_full_lengths _ _ _ _ _ _ _ _ _ H Hh) as Hlens.
-    destruct (analyze_spec (o:=rops) _ _ _ _ _ _ _ _ _ H)
-      as (Heq & fins & Hpi & Hm & Hout & Hne & Hfull & Hent & _).
+    intros Hn Hh Hho H Hg. pose proof (analyzer_full_lengths _ _ _ _ _ _ _ _ _ H Hh Hho) as Hlens.
+    destruct (analyze_body_spec (o:=rops) _ _ _ _ _ _ _ _ _ H)
+      as (fins & Hpi & Hm & Hout & Hne & Hfull & Hent & _).
     apply an_process_inputs_spec in Hpi. destruct Hpi as (_ & _ & Hins).
     eapply Forall2_impl; [|exact (Forall2_comp _ _ _ _ _ Hins Hent)].
     intros i row (fin & (Hli & Hv & fi & Hfi & ->) & Hrow). split.
@@ -1198,20 +1209,19 @@ End Consistency.
 
 (* ---- which outputs are listed ---- *)
 Theorem analyzer_outputs_iff {K} {o : ops K} {SR : StarRing o} n l (U : @mat (K * K)) hin hout ps inputs expected r :
-  analyze o n l U hin hout ps inputs expected = Ok r ->
-  exists i0 fi0, hd_error inputs = Some i0 /\ add_heralds_to_state i0 hin = Ok fi0 /\
+  analyze_body o n l U hin hout ps inputs expected = Ok r ->
+  exists i0, hd_error inputs = Some i0 /\
     forall x, In x (ar_outputs r) <->
-              exists c, x = zs c /\ length c = n - length hin /\ osum c <= osum (znat fi0) /\
-                        (l = 0 -> osum c = osum (znat fi0)) /\ ps x = Ok true.
+              exists c, x = zs c /\ length c = n - length hin /\ osum c <= Z.to_nat (zsum i0) /\
+                        (l = 0 -> osum c = Z.to_nat (zsum i0)) /\ ps x = Ok true.
 Proof.
-  intros H. destruct (analyze_spec (o:=o) _ _ _ _ _ _ _ _ _ H)
-    as (_ & fins & Hpi & Hm & Hout & _).
-  apply an_process_inputs_spec in Hpi. destruct Hpi as (Hne & _ & Hins).
-  destruct Hins as [|i0 fin0 inputs' fins' (Hl0 & _ & fi0 & Hfi0 & ->) _]; [contradiction|].
-  exists i0, fi0. split; [reflexivity|]. split; [exact Hfi0|].
-  assert (EN : an_nphotons ((znat fi0 ++ repeat 0 l) :: fins') = osum (znat fi0)).
-  { unfold an_nphotons. simpl hd. rewrite osum_app, osum_repeat0. lia. }
-  rewrite EN in Hout. intros x. rewrite Hout, in_map_iff. split.
+  intros H. destruct (analyze_body_spec (o:=o) _ _ _ _ _ _ _ _ _ H)
+    as (fins & Hpi & Hm & Hout & _).
+  apply an_process_inputs_spec in Hpi. destruct Hpi as (Hne & _ & _).
+  destruct inputs as [|i0 inputs']; [contradiction|].
+  exists i0. split; [reflexivity|].
+  change (an_nphotons (i0 :: inputs')) with (Z.to_nat (zsum i0)) in Hout.
+  intros x. rewrite Hout, in_map_iff. split.
   - intros [c [<- Hc]]. apply filter_In in Hc. destruct Hc as [Hc Hp].
     apply an_candidates_spec in Hc; [|lia]. destruct Hc as (H1 & H2 & H3).
     exists c. repeat split; try assumption.
@@ -1229,17 +1239,17 @@ Section Metrics.
 
   (* performance = mean over the inputs of the total probability of the listed outputs *)
   Theorem performance_spec b n l (U : @mat C) hin hout ps inputs expected r :
-    (0 < n)%nat -> (length hin <= n)%nat ->
-    analyze rops n l U hin hout ps inputs expected = Ok r ->
+    (0 < n)%nat -> (length hin <= n)%nat -> length hout = length hin ->
+    analyze_body rops n l U hin hout ps inputs expected = Ok r ->
     (lunit cops (n + l) U \/ Forall (fun fo => (0 < osum (znat fo))%nat) (ar_full r)) ->
     inputs <> [] /\
     ar_perf r = suml rops (ar_probs r) (fun row => ksum rops row) / IZR (Z.of_nat (length inputs)) /\
     ar_perf r = suml rops inputs (fun i => suml rops (ar_full r) (fun fo => sampler_p b n l U hin i (znat fo)))
                 / IZR (Z.of_nat (length inputs)).
   Proof.
-    intros Hn Hh H Hg.
-    pose proof (analyzer_eq_sampler b n l U hin hout ps inputs expected r Hn Hh H Hg) as Heq.
-    destruct (analyze_spec (o:=rops) _ _ _ _ _ _ _ _ _ H) as (_ & fins & Hpi & _ & _ & _ & _ & _ & Hperf & _).
+    intros Hn Hh Hho H Hg.
+    pose proof (analyzer_eq_sampler b n l U hin hout ps inputs expected r Hn Hh Hho H Hg) as Heq.
+    destruct (analyze_body_spec (o:=rops) _ _ _ _ _ _ _ _ _ H) as (fins & Hpi & _ & _ & _ & _ & _ & Hperf & _).
     apply an_process_inputs_spec in Hpi. destruct Hpi as (Hne & _ & _).
     split; [exact Hne|].
     assert (E1 : ar_perf r = suml rops (ar_probs r) (fun row => ksum rops row) / IZR (Z.of_nat (length inputs))).
@@ -1293,7 +1303,7 @@ Section Metrics.
   (* error_rate = 1 - mean over the inputs of the fraction of the row that lies
      on the expected outputs (those that are listed); no guard on a zero row *)
   Theorem error_rate_spec n l (U : @mat C) hin hout ps inputs e r :
-    analyze rops n l U hin hout ps inputs (Some e) = Ok r ->
+    analyze_body rops n l U hin hout ps inputs (Some e) = Ok r ->
     (forall s, In s inputs -> exists x, exp_lookup e s = Some x) /\
     exists x, ar_err r = Some x /\
       match x with
@@ -1302,8 +1312,8 @@ Section Metrics.
       | None => exists row, In row (ar_probs r) /\ ksum rops row = 0
       end.
   Proof.
-    intros H. destruct (analyze_spec (o:=rops) _ _ _ _ _ _ _ _ _ H)
-      as (_ & fins & Hpi & _ & _ & _ & _ & Hent & _ & (x & Hx & Her)).
+    intros H. destruct (analyze_body_spec (o:=rops) _ _ _ _ _ _ _ _ _ H)
+      as (fins & Hpi & _ & _ & _ & _ & Hent & _ & (x & Hx & Her)).
     apply an_process_inputs_spec in Hpi. destruct Hpi as (Hne & _ & Hins).
     assert (Hlen : length inputs = length (ar_probs r)).
     { transitivity (length fins); [apply (Forall2_len _ _ _ Hins)|apply (Forall2_len _ _ _ Hent)]. }
@@ -1522,6 +1532,25 @@ Section QuickSampler.
     rewrite <- E. apply map_ext. intros x. do 3 f_equal. unfold ksum.
     clear. induction kept as [|a kept IH]; simpl; [reflexivity|]. rewrite IH. reflexivity.
   Qed.
+  (* the zero-total behaviour: when no candidate has a probability above the
+     threshold the dictionary is empty, nothing is divided, EmulatorError *)
+  Theorem quick_sampler_zero_total eps n l (U : mat) hin hout ps pc input outs fi raw :
+    qs_new (n - length hin) input = Ok tt ->
+    qs_candidates ps pc input = Ok outs ->
+    add_heralds_to_state input hin = Ok fi ->
+    qs_raw o eps l U hout (znat fi ++ repeat 0 l) outs = Ok raw ->
+    (forall x, In x outs -> klt o eps (qs_w l U hout (znat fi ++ repeat 0 l) x) = false) ->
+    quick_sampler o eps n l U hin hout ps pc input = Err OtherError.
+  Proof.
+    intros Hnew Hc Hf Hr Hz. unfold quick_sampler, quick_sampler_lazy.
+    rewrite Hnew, Hc. cbn [bind fst snd]. replace (n + l - n) with l by lia.
+    unfold qs_probs. rewrite Hf. cbn [bind]. rewrite Hr. cbn [bind].
+    apply qs_raw_spec in Hr. destruct Hr as [-> _].
+    replace (filter (fun x => klt o eps (qs_w l U hout (znat fi ++ repeat 0 l) x)) outs) with (@nil state).
+    - reflexivity.
+    - symmetry. clear -Hz. induction outs as [|x outs IH]; [reflexivity|]. simpl.
+      rewrite (Hz x (or_introl eq_refl)). apply IH. intros y Hy. apply Hz. right. exact Hy.
+  Qed.
 End QuickSampler.
 
 Lemma filter_ext_in' {A} (f g : A -> bool) l : (forall a, In a l -> f a = g a) -> filter f l = filter g l.
@@ -1673,33 +1702,79 @@ Proof. induction 1 as [|kv h Hkv _ IH]; simpl; [reflexivity|]. rewrite Hkv, IH. 
 Lemma zsum_nonneg s : Forall (fun x => (0 <= x)%Z) s -> (0 <= zsum s)%Z.
 Proof. induction 1; simpl; lia. Qed.
 
+Lemma hd_photons_nonneg h : Forall (fun kv => (0 <= snd kv)%Z) h -> (0 <= hd_photons h)%Z.
+Proof. induction 1 as [|kv h Hkv _ IH]; simpl; lia. Qed.
+
+Lemma hlookup_some_key (h : hdict) j v : hlookup h j = Some v -> In j (hkeys h).
+Proof. intros H. apply hlookup_in in H. apply (in_map fst) in H. exact H. Qed.
+
+(* equal herald dictionaries (python ==) agree at every mode and hold the same photons *)
+Lemma hd_eqb_lookup n a b :
+  herald_ok n a -> herald_ok n b -> hd_eqb a b = true -> forall j, hlookup a j = hlookup b j.
+Proof.
+  intros (Na & _ & _) (Nb & _ & _) H. unfold hd_eqb in H. apply andb_true_iff in H. destruct H as [Hl Hf].
+  apply Nat.eqb_eq in Hl. rewrite forallb_forall in Hf.
+  assert (Hsub : forall k v, In (k, v) a -> hlookup b k = Some v).
+  { intros k v Hin. specialize (Hf (k, v) Hin). simpl in Hf. destruct (hlookup b k) as [w|]; [|discriminate].
+    apply Z.eqb_eq in Hf. congruence. }
+  assert (Hincl : incl (hkeys b) (hkeys a)).
+  { apply NoDup_length_incl; [exact Na|unfold hkeys; rewrite !map_length; lia|].
+    intros k Hk. unfold hkeys in Hk. apply in_map_iff in Hk. destruct Hk as [[k' v] [<- Hin]].
+    apply (hlookup_some_key b k' v). apply Hsub. exact Hin. }
+  intros j. destruct (hlookup a j) as [v|] eqn:Ea.
+  - symmetry. apply Hsub. apply hlookup_in. exact Ea.
+  - symmetry. apply hlookup_none. intros Hj. apply Hincl in Hj. apply hlookup_none in Ea. contradiction.
+Qed.
+
+Lemma hd_eqb_photons n a b :
+  herald_ok n a -> herald_ok n b -> hd_eqb a b = true -> hd_photons a = hd_photons b.
+Proof.
+  intros Ha Hb H. pose proof (hd_eqb_lookup n a b Ha Hb H) as Hl.
+  destruct Ha as (Na & Ra & _). destruct Hb as (Nb & Rb & _).
+  rewrite <- (hsum_hlookup a n 0 Na), <- (hsum_hlookup b n 0 Nb).
+  - apply hsum_ext. intros j _. apply Hl.
+  - intros k Hk. specialize (Rb k Hk). lia.
+  - intros k Hk. specialize (Ra k Hk). lia.
+Qed.
+
 Section Totality.
   Context {K : Type} (o : ops K).
   Local Notation mat := (@mat (K * K)).
 
-  (* On the current tree the Analyzer does NOT work on every circuit the other
-     objects accept.  Witness 1: a herald that carries a photon (2 modes, mode 1
-     heralded with one photon, any matrix): the Simulator and the Sampler accept
-     the input |1>, the Analyzer raises ValueError ("Input matrix must be
-     square": _generate_outputs is given the photon number INCLUDING the herald
-     photon), and PhotonNumberError as soon as the circuit has a loss mode. *)
-  Theorem analyzer_total_refuted_photons (U : mat) :
+  (* The behaviour before fixes 35b3f09 and e8102ee (kept as regression
+     witnesses): the guard compared the two dictionaries, and the photon number
+     handed to _generate_outputs was full_inputs[0].n_photons, i.e. it INCLUDED
+     the herald photons. *)
+  Definition analyze_pinned (n l : nat) (U : mat) (hin hout : hdict) (ps : state -> res bool)
+             (inputs : list state) : res (list state * list (list K)) :=
+    let m := n - length hin in
+    if negb (hd_eqb hin hout) then Err OtherError else
+    do fins <- an_process_inputs m l hin inputs;
+    do outs <- an_generate_outputs ps m l (osum (hd [] fins)) hout;
+    do probs <- an_probs o l U fins outs;
+    Ok (map fst outs, probs).
+
+  (* F6: a herald that carries a photon (2 modes, mode 1 heralded with one
+     photon, any matrix): Simulator and Sampler accept the input |1>; the old
+     Analyzer raised ValueError ("Input matrix must be square"),
+     PhotonNumberError with a loss mode; the repaired Analyzer returns a result.
+     N14: a zero-photon herald with input mode 1 and output mode 0: the old guard
+     raised RuntimeError; the repaired Analyzer returns a result. *)
+  Theorem analyzer_total_pinned_refuted (U : mat) :
     (exists r, simulate o 2 0 U [(1, 1%Z)] [(1, 1%Z)] 1 [[1%Z]] None = Ok r) /\
     (exists d, sampler_dist o Permanent (k0 o) 2 0 U [(1, 1%Z)] [1%Z] = Ok d) /\
-    analyze o 2 0 U [(1, 1%Z)] [(1, 1%Z)] (fun _ => Ok true) [[1%Z]] None = Err ValueError /\
-    analyze o 2 1 U [(1, 1%Z)] [(1, 1%Z)] (fun _ => Ok true) [[1%Z]] None = Err PhotonNumberError.
-  Proof.
-    split; [eexists; reflexivity|]. split; [eexists; reflexivity|]. split; reflexivity.
-  Qed.
-
-  (* Witness 2: a zero-photon herald whose input mode differs from its output
-     mode: heralds["input"] != heralds["output"] raises RuntimeError *)
-  Theorem analyzer_total_refuted_modes (U : mat) :
+    analyze_pinned 2 0 U [(1, 1%Z)] [(1, 1%Z)] (fun _ => Ok true) [[1%Z]] = Err ValueError /\
+    analyze_pinned 2 1 U [(1, 1%Z)] [(1, 1%Z)] (fun _ => Ok true) [[1%Z]] = Err PhotonNumberError /\
+    (exists r, analyze o 2 0 U [(1, 1%Z)] [(1, 1%Z)] (fun _ => Ok true) [[1%Z]] None = Ok r) /\
+    (exists r, analyze o 2 1 U [(1, 1%Z)] [(1, 1%Z)] (fun _ => Ok true) [[1%Z]] None = Ok r) /\
     (exists r, simulate o 2 0 U [(1, 0%Z)] [(0, 0%Z)] 1 [[1%Z]] None = Ok r) /\
     (exists d, sampler_dist o Permanent (k0 o) 2 0 U [(1, 0%Z)] [1%Z] = Ok d) /\
-    analyze o 2 0 U [(1, 0%Z)] [(0, 0%Z)] (fun _ => Ok true) [[1%Z]] None = Err OtherError.
+    analyze_pinned 2 0 U [(1, 0%Z)] [(0, 0%Z)] (fun _ => Ok true) [[1%Z]] = Err OtherError /\
+    (exists r, analyze o 2 0 U [(1, 0%Z)] [(0, 0%Z)] (fun _ => Ok true) [[1%Z]] None = Ok r).
   Proof.
-    split; [eexists; reflexivity|]. split; [eexists; reflexivity|]. reflexivity.
+    split; [eexists; reflexivity|]. split; [eexists; reflexivity|]. split; [reflexivity|].
+    split; [reflexivity|]. split; [eexists; reflexivity|]. split; [eexists; reflexivity|].
+    split; [eexists; reflexivity|]. split; [eexists; reflexivity|]. split; [reflexivity|eexists; reflexivity].
   Qed.
 
   (* the quick sampler refuses threshold detection on a vacuum input (it keeps
@@ -1709,44 +1784,43 @@ Section Totality.
     quick_sampler o eps 2 0 U [] [] (fun _ => Ok true) false [0%Z; 0%Z] = Err ValueError.
   Proof. split; [eexists; reflexivity|reflexivity]. Qed.
 
-  (* The Analyzer does work whenever the heralds carry no photon and sit on the
-     same modes at input and output (the only configuration the unit tests
-     use), for every input list the Simulator accepts, provided the
-     post-selection is defined on every candidate and keeps one of them, and
-     the expected mapping (if given) covers every input. *)
-  Theorem analyzer_total_partial n l (U : mat) hin hout ps inputs expected :
+  (* Everything analyze() does after its guard works for ANY well-formed heralds
+     (photons or not, input mode = or <> output mode) that hold the same number
+     of photons at input and output, on every input list the Simulator accepts,
+     provided the post-selection is defined on every candidate and keeps one of
+     them, and the expected mapping (if given) covers every input. *)
+  Theorem analyzer_body_total n l (U : mat) hin hout ps inputs expected :
     0 < n - length hin -> herald_ok n hin -> herald_ok n hout ->
-    hd_eqb hin hout = true ->
-    Forall (fun kv => snd kv = 0%Z) hin -> Forall (fun kv => snd kv = 0%Z) hout ->
+    length hout = length hin -> hd_photons hin = hd_photons hout ->
     inputs <> [] -> Forall (valid_state (n - length hin)) inputs -> all_equal (map zsum inputs) = true ->
     (forall s, exists b, ps s = Ok b) ->
-    (exists c, In c (an_candidates (n - length hin) l (Z.to_nat (zsum (hd [] inputs)))) /\ ps (zs c) = Ok true) ->
+    (exists c, In c (an_candidates (n - length hin) l (an_nphotons inputs)) /\ ps (zs c) = Ok true) ->
     match expected with
     | Some e => forall s, In s inputs -> exp_lookup e s <> None
     | None => True
     end ->
-    exists r, analyze o n l U hin hout ps inputs expected = Ok r.
+    exists r, analyze_body o n l U hin hout ps inputs expected = Ok r.
   Proof.
-    intros Hm Hhin Hhout Heq Zin Zout Hne Hval Hall Hps (c0 & Hc0 & Hp0) Hexp.
-    pose proof (hd_eqb_length _ _ Heq) as Hlen. pose proof (hd_photons_zero _ Zin) as Pin.
-    pose proof (hd_photons_zero _ Zout) as Pout.
-    set (m := n - length hin) in *. set (N := Z.to_nat (zsum (hd [] inputs))) in *.
+    intros Hm Hhin Hhout Hlen Hph Hne Hval Hall Hps (c0 & Hc0 & Hp0) Hexp.
+    pose proof (hd_photons_nonneg _ (proj2 (proj2 Hhin))) as Pin.
+    set (m := n - length hin) in *. set (N := an_nphotons inputs) in *.
+    set (T := (N + Z.to_nat (hd_photons hin))%nat).
     pose proof (proj1 (all_equal_spec _) Hall) as Hsame.
-    (* every input gets its heralds, has N photons and n + l modes *)
+    (* every input gets its heralds, has T photons and n + l modes *)
     assert (Hfi : forall i, In i inputs -> exists fi, add_heralds_to_state i hin = Ok fi /\
-                    length (znat fi ++ repeat 0 l) = n + l /\ osum (znat fi ++ repeat 0 l) = N).
+                    length (znat fi ++ repeat 0 l) = n + l /\ osum (znat fi ++ repeat 0 l) = T).
     { intros i Hi. rewrite Forall_forall in Hval. destruct (Hval i Hi) as [Hli Hpi].
       destruct (add_heralds_total n hin i Hhin Hli ltac:(lia) Hpi) as (fi & Hf & Hlf & _ & Hsf).
       exists fi. split; [exact Hf|]. rewrite app_length, repeat_length, znat_length, Hlf. split; [reflexivity|].
-      rewrite osum_app, osum_repeat0, Nat.add_0_r. unfold N. apply Nat2Z.inj. rewrite Hsf, Pin.
+      rewrite osum_app, osum_repeat0, Nat.add_0_r. unfold T, N, an_nphotons. apply Nat2Z.inj. rewrite Hsf.
       destruct inputs as [|i0 inputs']; [contradiction|]. simpl hd.
       rewrite (Hsame (zsum i) (zsum i0)); [|apply in_map; exact Hi|left; reflexivity].
       assert (Hv0 : valid_state m i0) by (apply Hval; left; reflexivity).
       pose proof (zsum_nonneg _ (proj2 Hv0)). lia. }
-    unfold analyze. rewrite Heq. cbn [negb]. fold m.
+    unfold analyze_body. fold m. fold N.
     (* _process_inputs *)
     assert (Hpi : exists fins, an_process_inputs m l hin inputs = Ok fins /\
-                    Forall (fun fin => length fin = n + l /\ osum fin = N) fins /\ fins <> []).
+                    Forall (fun fin => length fin = n + l /\ osum fin = T) fins).
     { unfold an_process_inputs. destruct inputs as [|i0 inputs'] eqn:Ei; [contradiction|]. rewrite <- Ei in *.
       rewrite Hall. cbn [negb].
       destruct (mapM_total (fun s => if negb (Nat.eqb (length s) m) then Err ModeMismatchError
@@ -1755,23 +1829,18 @@ Section Totality.
         rewrite Forall_forall in Hval. destruct (Hval i Hi) as [Hli Hpi].
         exists fi. rewrite Hli, Nat.eqb_refl. cbn [negb].
         rewrite (proj2 (st_validate_ok i) Hpi). cbn [bind]. exact Hf. }
-      rewrite Hfull. cbn [bind]. eexists. split; [reflexivity|]. apply mapM_ok in Hfull. split.
-      - apply Forall_forall. intros fin Hfin. apply in_map_iff in Hfin. destruct Hfin as [fi [<- Hfi']].
-        assert (G : exists i, In i inputs /\ add_heralds_to_state i hin = Ok fi).
-        { clear -Hfull Hfi' Hval. induction Hfull as [|i f ins fs Hif _ IH]; [contradiction|].
-          inversion Hval as [|? ? Hvi Hval']; subst.
-          destruct Hfi' as [<-|Hin].
-          - exists i. split; [left; reflexivity|]. destruct Hvi as [Hli Hpi]. rewrite Hli, Nat.eqb_refl in Hif.
-            cbn [negb] in Hif. rewrite (proj2 (st_validate_ok i) Hpi) in Hif. exact Hif.
-          - destruct (IH Hval' Hin) as [i' [Hi' Hf']]. exists i'. split; [right; exact Hi'|exact Hf']. }
-        destruct G as [i [Hi Hf]]. destruct (Hfi i Hi) as (fi' & Hf' & H1 & H2).
-        rewrite Hf in Hf'. injection Hf' as <-. split; assumption.
-      - rewrite Ei in Hfull. inversion Hfull; subst. discriminate. }
-    destruct Hpi as (fins & Hpi & Hfins & Hfne). rewrite Hpi. cbn [bind].
-    assert (EN : an_nphotons fins = N).
-    { unfold an_nphotons. destruct fins as [|f0 fins']; [contradiction|]. simpl.
-      inversion Hfins as [|? ? [_ H0] _]; subst. exact H0. }
-    rewrite EN.
+      rewrite Hfull. cbn [bind]. eexists. split; [reflexivity|]. apply mapM_ok in Hfull.
+      apply Forall_forall. intros fin Hfin. apply in_map_iff in Hfin. destruct Hfin as [fi [<- Hfi']].
+      assert (G : exists i, In i inputs /\ add_heralds_to_state i hin = Ok fi).
+      { clear -Hfull Hfi' Hval. induction Hfull as [|i f ins fs Hif _ IH]; [contradiction|].
+        inversion Hval as [|? ? Hvi Hval']; subst.
+        destruct Hfi' as [<-|Hin].
+        - exists i. split; [left; reflexivity|]. destruct Hvi as [Hli Hpi]. rewrite Hli, Nat.eqb_refl in Hif.
+          cbn [negb] in Hif. rewrite (proj2 (st_validate_ok i) Hpi) in Hif. exact Hif.
+        - destruct (IH Hval' Hin) as [i' [Hi' Hf']]. exists i'. split; [right; exact Hi'|exact Hf']. }
+      destruct G as [i [Hi Hf]]. destruct (Hfi i Hi) as (fi' & Hf' & H1 & H2).
+      rewrite Hf in Hf'. injection Hf' as <-. split; assumption. }
+    destruct Hpi as (fins & Hpi & Hfins). rewrite Hpi. cbn [bind].
     (* _generate_outputs *)
     unfold an_generate_outputs. rewrite (proj2 (Nat.eqb_neq m 0)) by lia.
     destruct (an_filter_total ps hout (an_candidates m l N)) as [outs Houts].
@@ -1787,8 +1856,8 @@ Section Totality.
       rewrite <- Hf1 in Hin. contradiction. }
     destruct outs as [|sf0 outs'] eqn:Eo; [contradiction|]. cbn [bind]. rewrite <- Eo in *.
     (* _get_probs *)
-    assert (Hsf : forall sf, In sf outs -> length (znat (snd sf)) = n /\ osum (znat (snd sf)) <= N /\
-                                          (l = 0 -> osum (znat (snd sf)) = N)).
+    assert (Hsf : forall sf, In sf outs -> length (znat (snd sf)) = n /\ osum (znat (snd sf)) <= T /\
+                                          (l = 0 -> osum (znat (snd sf)) = T)).
     { intros sf Hin. assert (Hs : In (fst sf) (map fst outs)) by (apply in_map; exact Hin).
       rewrite Hf1 in Hs. apply in_map_iff in Hs. destruct Hs as [c [Ec Hc]].
       apply filter_In in Hc. destruct Hc as [Hc _]. apply an_candidates_spec in Hc; [|lia].
@@ -1796,10 +1865,12 @@ Section Totality.
       destruct (add_heralds_total n hout (zs c) Hhout) as (fo & Hfo & Hlfo & _ & Hsfo); [rewrite zs_length; lia|lia|apply zs_nonneg|].
       rewrite <- Ec in Hf2. rewrite Hfo in Hf2. injection Hf2 as <-.
       rewrite znat_length. split; [exact Hlfo|].
-      assert (osum (znat fo) = osum c) by (apply Nat2Z.inj; rewrite Hsfo, Pout, zsum_zs; lia).
-      split; [lia|]. intros E. rewrite (H0 E) in *. lia. }
+      assert (osum (znat fo) = (osum c + Z.to_nat (hd_photons hin))%nat)
+        by (apply Nat2Z.inj; rewrite Hsfo, <- Hph, zsum_zs; lia).
+      unfold T. split; [lia|]. intros E. rewrite (H0 E) in *. lia. }
     assert (Hprobs : exists probs, an_probs o l U fins outs = Ok probs).
-    { unfold an_probs. apply mapM_total. apply Forall_forall. intros fin Hfin. rewrite Forall_forall in Hfins. destruct (Hfins fin Hfin) as [Hlf Hsf'].
+    { unfold an_probs. apply mapM_total. apply Forall_forall.
+      intros fin Hfin. rewrite Forall_forall in Hfins. destruct (Hfins fin Hfin) as [Hlf Hsf'].
       apply mapM_total. apply Forall_forall. intros sf Hin. destruct (Hsf sf Hin) as (H1 & H2 & H3).
       apply (an_entry_total (o:=o)).
       - rewrite Hsf'. exact H2.
@@ -1813,6 +1884,24 @@ Section Totality.
     - cbn [negb bind]. eexists; reflexivity.
     - symmetry. apply forallb_forall. intros s Hs. specialize (Hexp s Hs).
       destruct (exp_lookup e s); [reflexivity|contradiction].
+  Qed.
+
+  (* analyze() itself: the guard passes for every circuit (a herald adds one
+     entry to each dictionary), so it is total under the same hypotheses *)
+  Theorem analyzer_total n l (U : mat) hin hout ps inputs expected :
+    0 < n - length hin -> herald_ok n hin -> herald_ok n hout ->
+    length hout = length hin -> hd_photons hin = hd_photons hout ->
+    inputs <> [] -> Forall (valid_state (n - length hin)) inputs -> all_equal (map zsum inputs) = true ->
+    (forall s, exists b, ps s = Ok b) ->
+    (exists c, In c (an_candidates (n - length hin) l (an_nphotons inputs)) /\ ps (zs c) = Ok true) ->
+    match expected with
+    | Some e => forall s, In s inputs -> exp_lookup e s <> None
+    | None => True
+    end ->
+    exists r, analyze o n l U hin hout ps inputs expected = Ok r.
+  Proof.
+    intros Hm Hhin Hhout Hlen. unfold analyze. rewrite Hlen, Nat.eqb_refl. cbn [negb].
+    apply analyzer_body_total; assumption.
   Qed.
 
   (* The QuickSampler works on every circuit and input the Simulator accepts,
@@ -1858,3 +1947,81 @@ Section Totality.
     unfold qs_normalise. destruct (filter _ (qs_cands ps pc input)); [contradiction|]. simpl. eexists; reflexivity.
   Qed.
 End Totality.
+
+(* ------------------------------------------------------------------ *)
+(* the statements for analyze() itself (guard + body)                  *)
+(* ------------------------------------------------------------------ *)
+Theorem analyze_spec {K} {o : ops K} {SR : StarRing o} n l (U : @mat (K * K)) hin hout ps inputs expected r :
+  analyze o n l U hin hout ps inputs expected = Ok r ->
+  length hout = length hin /\
+  exists fins,
+    an_process_inputs (n - length hin) l hin inputs = Ok fins /\
+    n - length hin <> 0 /\
+    ar_outputs r = map zs (filter (fun c => ps_acc ps (zs c))
+                                  (an_candidates (n - length hin) l (an_nphotons inputs))) /\
+    ar_outputs r <> [] /\
+    Forall2 (fun x fo => add_heralds_to_state x hout = Ok fo) (ar_outputs r) (ar_full r) /\
+    Forall2 (fun fin row =>
+               Forall2 (fun fo p => osum (znat fo) <= osum fin /\ (l = 0 -> osum (znat fo) = osum fin) /\
+                                    p = entry_val (o:=o) l U fin (znat fo))
+                       (ar_full r) row)
+            fins (ar_probs r) /\
+    ar_perf r = kdivn o (ksum o (map (ksum o) (ar_probs r))) (length inputs) /\
+    match expected with
+    | None => ar_err r = None
+    | Some e => exists x, ar_err r = Some x /\ an_error_rate o (ar_probs r) inputs (ar_outputs r) e = Ok x
+    end.
+Proof.
+  intros H. destruct (analyze_ok (o:=o) _ _ _ _ _ _ _ _ _ H) as [Hl Hb]. split; [exact Hl|].
+  exact (analyze_body_spec (o:=o) _ _ _ _ _ _ _ _ _ Hb).
+Qed.
+
+Theorem analyze_outputs_iff {K} {o : ops K} {SR : StarRing o} n l (U : @mat (K * K)) hin hout ps inputs expected r :
+  analyze o n l U hin hout ps inputs expected = Ok r ->
+  exists i0, hd_error inputs = Some i0 /\
+    forall x, In x (ar_outputs r) <->
+              exists c, x = zs c /\ length c = n - length hin /\ osum c <= Z.to_nat (zsum i0) /\
+                        (l = 0 -> osum c = Z.to_nat (zsum i0)) /\ ps x = Ok true.
+Proof.
+  intros H. destruct (analyze_ok (o:=o) _ _ _ _ _ _ _ _ _ H) as [_ Hb].
+  exact (analyzer_outputs_iff (o:=o) _ _ _ _ _ _ _ _ _ Hb).
+Qed.
+
+Theorem analyze_eq_sampler b n l (U : @mat C) hin hout ps inputs expected r :
+  0 < n -> length hin <= n ->
+  analyze rops n l U hin hout ps inputs expected = Ok r ->
+  (lunit cops (n + l) U \/ Forall (fun fo => 0 < osum (znat fo)) (ar_full r)) ->
+  Forall2 (fun i row => sampler_accepts b n l U hin i /\
+                        row = map (fun fo => sampler_p b n l U hin i (znat fo)) (ar_full r))
+          inputs (ar_probs r).
+Proof.
+  intros Hn Hh H. destruct (analyze_ok (o:=rops) _ _ _ _ _ _ _ _ _ H) as [Hl Hb].
+  exact (analyzer_eq_sampler b n l U hin hout ps inputs expected r Hn Hh Hl Hb).
+Qed.
+
+Theorem analyze_performance b n l (U : @mat C) hin hout ps inputs expected r :
+  0 < n -> length hin <= n ->
+  analyze rops n l U hin hout ps inputs expected = Ok r ->
+  (lunit cops (n + l) U \/ Forall (fun fo => 0 < osum (znat fo)) (ar_full r)) ->
+  inputs <> [] /\
+  ar_perf r = (suml rops (ar_probs r) (fun row => ksum rops row) / IZR (Z.of_nat (length inputs)))%R /\
+  ar_perf r = (suml rops inputs (fun i => suml rops (ar_full r) (fun fo => sampler_p b n l U hin i (znat fo)))
+               / IZR (Z.of_nat (length inputs)))%R.
+Proof.
+  intros Hn Hh H. destruct (analyze_ok (o:=rops) _ _ _ _ _ _ _ _ _ H) as [Hl Hb].
+  exact (performance_spec b n l U hin hout ps inputs expected r Hn Hh Hl Hb).
+Qed.
+
+Theorem analyze_error_rate n l (U : @mat C) hin hout ps inputs e r :
+  analyze rops n l U hin hout ps inputs (Some e) = Ok r ->
+  (forall s, In s inputs -> exists x, exp_lookup e s = Some x) /\
+  exists x, ar_err r = Some x /\
+    match x with
+    | Some v => v = (1 - ksum rops (frac_list (o:=rops) inputs (ar_probs r) (ar_outputs r) e)
+                         / IZR (Z.of_nat (length inputs)))%R
+    | None => exists row, In row (ar_probs r) /\ ksum rops row = 0%R
+    end.
+Proof.
+  intros H. destruct (analyze_ok (o:=rops) _ _ _ _ _ _ _ _ _ H) as [_ Hb].
+  exact (error_rate_spec n l U hin hout ps inputs e r Hb).
+Qed.
